@@ -101,7 +101,7 @@ Init ==
             /\ pairs = << >> /\ blen = 0
 
 \* ---- Layer M, request side --------------------------------------------
-Emit(t, n) == recs' = Append(recs, [t |-> t, n |-> n])
+Put(t, n) == recs' = Append(recs, [t |-> t, n |-> n])
 
 \* writing m more bytes through the buffered writer: full 65500-byte records, lazily flushed
 RECURSIVE Fulls(_, _)
@@ -112,7 +112,7 @@ Through(t, buf, m) ==
   IN [out |-> Fulls(t, c), buf |-> tot - c * BufSize]
 
 Begin == /\ side = "req" /\ phase = "start"
-         /\ Emit("BEGIN", 8) /\ phase' = "params"
+         /\ Put("BEGIN", 8) /\ phase' = "params"
          /\ UNCHANGED << side, pairs, blen, k, buffered, nn, respv >>
 
 \* writePairs, one iteration: flush first if the pair does not fit behind what was written since the
